@@ -47,6 +47,7 @@ class _Paginator:
             yield {"KeyCount": 0}
             return
         for i in range(0, len(keys), page):
+            self.s3._h("before", "list-page", Prefix, {"index": i // page})
             yield {"Contents": [{"Key": k, "Size": len(self.s3.objects[k].data)} for k in keys[i:i + page]], "KeyCount": len(keys[i:i + page])}
 
 
